@@ -182,6 +182,33 @@ def showEdge (e : Edge) : String :=
   e.param ++ ":" ++ match e.kind with
     | .opaque => "opaque" | .slice => "slice" | .structLt i => s!"struct.{i}"
 
+/-! ### struct fields of struct type (`StructBorrowInfo::compute_for_struct_field`) -/
+
+/-- For a field whose type is a struct instantiated with `args` (use-site lifetimes of the *outer* struct, by the
+    inner struct's definition position; `none` = `'static`): the definition lifetimes of the inner struct whose
+    fields are borrowed under the outer lifetime `x` -/
+def fieldDefLts (args : List (Option Nat)) (x : Nat) : List Nat :=
+  (args.zipIdx).filterMap fun (a, i) => if a = some x then some i else none
+
+/-- the outer struct's getter for lifetime `x`: per struct-typed field, the inner getters it spreads -/
+def nestedGetter (fields : List (String × List (Option Nat))) (x : Nat) : List (String × Nat) :=
+  fields.flatMap fun f => (fieldDefLts f.2 x).map fun i => (f.1, i)
+
+/-- `(c04nest N (FIELD a0 a1 …)…)` with `ai` a lifetime index or `-` for `'static`
+    → `lt=0 f.0,f.1,g.0; lt=1 …` -/
+def runNest (line : String) : String :=
+  match Sexp.parse line with
+  | some (.list (.atom "c04nest" :: n :: fs)) =>
+    let parseField : Sexp → Option (String × List (Option Nat)) := fun s => match s with
+      | .list (.atom name :: args) => (optMapM parseOptNat args).map fun a => (name, a)
+      | _ => none
+    match n.asNat, optMapM parseField fs with
+    | some n, some fields =>
+      "; ".intercalate ((List.range n).map fun x =>
+        s!"lt={x} " ++ ",".intercalate ((nestedGetter fields x).map fun (f, i) => f ++ "." ++ toString i))
+    | _, _ => "bad-case"
+  | _ => "bad-case"
+
 /-- `(c04 N (bounds (l s)…) (tys ATy…) (used n…) (params Param…))`
     → `lt=L longer=… edges=…; …` or `panic` -/
 def runLine (line : String) : String :=
